@@ -22,7 +22,7 @@ fn post(a: usize, amt: Option<VE>) -> Posting {
 }
 
 /// residual shape x sign x rounding classes, enumerated
-fn boundary_cases() -> Vec<Vec<Entry>> {
+pub fn boundary_cases() -> Vec<Vec<Entry>> {
     let mut out = Vec::new();
     let vals: [(i64, u32); 9] = [(0, 0), (5, 0), (-5, 0), (3, 0), (5, 3), (-5, 3), (15, 3), (25, 3), (4, 3)];
     // two postings in two commodities: every sign/zero combination
